@@ -110,6 +110,28 @@ func permutations(xs []string) [][]string {
 	return res
 }
 
+// withDuplicateDeps returns variants of g in which one dependency list names an entry twice
+func withDuplicateDeps(g map[string][]string) []map[string][]string {
+	var res []map[string][]string
+	names := make([]string, 0, len(g))
+	for n := range g {
+		names = append(names, n)
+	}
+	sort.Strings(names)
+	for _, n := range names {
+		if len(g[n]) == 0 {
+			continue
+		}
+		v := map[string][]string{}
+		for k, d := range g {
+			v[k] = append([]string(nil), d...)
+		}
+		v[n] = append(append([]string(nil), g[n]...), g[n][0])
+		res = append(res, v)
+	}
+	return res
+}
+
 // checkSortAndCycle: the reported task order must be a topological order, identical for every
 // permutation of the input, and feeding it to the upstream graph builder must not report a cycle.
 func checkSortAndCycle(g map[string][]string) []Violation {
